@@ -13,6 +13,10 @@ One execution = one sequence of decisions taken at iteration boundaries:
 Deviations from the default (always option 0) are counted in two classes: 'order' (j > 0 at quiescence) and 'early'
 (completion while handles are ready); each class has its own bound (None = unbounded = all completion orders).
 
+`asyncio.as_completed` is replaced by a variant that creates its tasks in input order (the stock one iterates a SET of the
+awaitables: address order, which nothing can own); `asyncio.wait`'s result sets stay as they are - code that depends on
+their iteration order shows up as a replay divergence (harness error), not as a verdict.
+
 Depth-first enumeration of all decision sequences within the bounds; every schedule is replayed from scratch on a fresh
 loop.  A replayed prefix that meets a different number of options is a hard error (nondeterminism not owned).
 """
@@ -69,6 +73,34 @@ class Sched:
         await fut
 
 
+def _ordered_as_completed(fs, *, timeout=None):
+    """asyncio.as_completed with the awaitables wrapped into tasks in INPUT order.  The stock function builds a set of the
+    awaitables first, so the order in which their tasks are created (= FIFO order inside one loop iteration) follows object
+    addresses: a source of nondeterminism no scheduler can own.  Input order is one of the orders a real run can show, so
+    every execution explored here is a real execution; results are still delivered in completion order."""
+    from asyncio import Queue, ensure_future
+
+    if timeout is not None:
+        raise ScheduleError("as_completed with a timeout is not modelled")
+    loop = events.get_event_loop()
+    done = Queue()
+    todo = [ensure_future(f, loop=loop) for f in dict.fromkeys(fs)]
+
+    def _on_completion(f):
+        if f in todo:
+            todo.remove(f)
+            done.put_nowait(f)
+
+    async def _wait_for_one():
+        f = await done.get()
+        return f.result()
+
+    for f in list(todo):
+        f.add_done_callback(_on_completion)
+    for _ in range(len(todo)):
+        yield _wait_for_one()
+
+
 class Execution:
     __slots__ = ("result", "exception", "decisions", "completion_order", "iterations", "loop_exceptions", "created")
 
@@ -83,6 +115,8 @@ def run_schedule(main_factory, choices, horizon=20000):
     ex.iterations = 0
     prev = events._get_running_loop()
     events._set_running_loop(loop)
+    stock_as_completed = asyncio.as_completed
+    asyncio.as_completed = _ordered_as_completed
     try:
         ctx = contextvars.copy_context()
         task = ctx.run(lambda: loop.create_task(main_factory(sched)))
@@ -136,6 +170,7 @@ def run_schedule(main_factory, choices, horizon=20000):
         ex.created = sched.created
         return ex
     finally:
+        asyncio.as_completed = stock_as_completed
         events._set_running_loop(prev)
         # cancel whatever is still pending so that no "was never awaited"/"pending task destroyed" noise appears
         try:
